@@ -84,6 +84,18 @@ CHECKS = {
         technique="TLA+ spec Chop.tla (exact instances + closure state machine) by TLC; instance evaluation against the code; "
                   "ChopTrace.tla trace validation of relation applications",
         ref="DESIGN.md section 4 C03, Appendix D"),
+    "C04": dict(
+        text="Grading.tla (invariant SharedSame: coincident wires carry the same section list, reversed and inverted when "
+             "anti-aligned) is model-checked and enumerates topology x numbering x chop placement; every configuration is "
+             "built on a warped lattice with size/ratio-preserving laws, written under a random schedule, decoded per edge "
+             "with blockMesh's multi-grading law; SizesJudge.tla (TLC) decides each record: same physical cell sequence from "
+             "every block sharing an edge, preserved size/ratio on every wire of the chop's family at the geometrically "
+             "same end (orientation propagated through the recorded topology). Round shapes with arcs/splines likewise.",
+        note="Sizes are abstracted to integer codes round(1e6 ln(size)) and compared with tolerance 3e-5; spline edge lengths "
+             "are polyline approximations (only used for equality between blocks). Families with two different user laws are "
+             "not generated (the statement does not say which law wins).",
+        technique="TLA+ specs Grading.tla (TLC exhaustive) + SizesJudge.tla (TLC trace acceptor over decoded cell sizes)",
+        ref="DESIGN.md section 4 C04"),
 }
 
 def main():
